@@ -150,7 +150,9 @@ def check_private_pool(ck: Checker, rid: str):
     for rel, cname, itname in ((STREAMER, 'Parmapper', '__iter__'), (STREAMER_ASYNC, 'AsyncParmapper', '__aiter__')):
         f = ck.repo.cls(rel, cname).method(itname)
         subs = [n for n in walk_deep_func(f.node) if isinstance(n, ast.Call) and method_of(n)[1] == 'submit' and isinstance(method_of(n)[0], ast.Name)]
-        ck.need(subs, f'{f.key}: no <pool>.submit(...) found')
+        if not subs:
+            ck.ob(rid, f, f.node, False, f'{f.qualname} contains no `<pool>.submit(...)` of its own: the calls are submitted by code outside this iteration (a method working on an attribute), so the pool is not the one this iteration constructed — two passes over the same stream share / overwrite it')
+            continue
         pool = method_of(subs[0])[0].id
 
         def defs_of(name, seen=()):
